@@ -14,9 +14,12 @@ Events == {"none", "localClose", "localCloseReason", "peerClose", "peerEof", "wr
 Places == {"start", "idle", "mid", "blockedFull"}
 Rows == { [writers |-> w, msgs |-> m, inbound |-> i, event |-> e, place |-> p, k |-> k, delay |-> d] :
             w \in 1..MaxWriters, m \in 1..2, i \in {0, 2}, e \in Events, p \in Places, k \in 0..MaxK, d \in Delays }
-Valid(r) == /\ (r.event \in {"writeFail", "readFail"}) <=> (r.k > 0)
+\* k: for writeFail / readFail the position of the failing transport operation, for peerClose the index of the close code
+\* (1000, 1001, 1002, 1008, 1011, 3000, 4001, 4452, 4999, ...)
+Valid(r) == /\ (r.event \in {"writeFail", "readFail", "peerClose"}) <=> (r.k > 0)
             /\ (r.place = "mid") <=> (r.delay > 0)
             /\ r.place = "blockedFull" => (r.writers >= 2 /\ r.msgs = 2 /\ r.event \notin {"readFail", "none"} /\ r.k <= 2)
+            /\ r.event = "peerClose" => (r.inbound = 0 /\ r.msgs = 2 /\ r.place \in {"idle", "mid", "blockedFull"})
             /\ r.event \in {"writeFail", "readFail"} => r.place \in {"mid", "idle", "blockedFull"}
             /\ r.event = "none" => r.place = "idle"
 VARIABLE done
